@@ -33,6 +33,16 @@ var reviewedOrderIndependent = map[string]string{
 	"op.KeyConversionChain.Convert$1": "see op.KeyConversionChain.Convert",
 }
 
+// orderReviewed: the function (or, for an extracted helper or a loop-body closure, the single function it serves) is in
+// reviewedOrderIndependent.
+func (c *Ctx) orderReviewed(fn *ssa.Function) bool {
+	if _, ok := reviewedOrderIndependent[fname(fn)]; ok {
+		return true
+	}
+	_, ok := reviewedOrderIndependent[c.ownerName(fn)]
+	return ok
+}
+
 type taintEngine struct {
 	c            *Ctx
 	fns          []*ssa.Function
@@ -163,6 +173,15 @@ func dataSinkArgs(cc *ssa.CallCommon) ([]int, string) {
 	if strings.HasPrefix(n, "midix.MIDIWriter.") {
 		return all(1), n
 	}
+	// the usage text of a flag: `crd <command> --help` prints it on standard output
+	if strings.HasPrefix(n, "github.com/spf13/pflag.FlagSet.") && len(cc.Args) >= 2 {
+		if sig := cc.Signature(); sig != nil && sig.Params().Len() >= 1 {
+			last := sig.Params().At(sig.Params().Len() - 1)
+			if last.Name() == "usage" {
+				return []int{len(cc.Args) - 1}, "flag-usage"
+			}
+		}
+	}
 	return nil, ""
 }
 
@@ -211,6 +230,27 @@ func (e *taintEngine) hasEffect(fn *ssa.Function, depth int) bool {
 				return
 			}
 			if callee := staticCallee(cc); callee != nil {
+				// a helper that only writes into what it is handed, handed something made here (`s.add(v)` on a fresh set)
+				if idxs, only := e.paramOnlyEffects(unbound(callee)); only && len(idxs) > 0 {
+					allLocal := true
+					for _, i := range idxs {
+						if i >= len(cc.Args) {
+							allLocal = false
+							break
+						}
+						switch y := addrRoot(cc.Args[i]).(type) {
+						case *ssa.MakeMap:
+							allLocal = allLocal && y.Parent() == fn
+						case *ssa.Alloc:
+							allLocal = allLocal && y.Parent() == fn
+						default:
+							allLocal = false
+						}
+					}
+					if allLocal {
+						return
+					}
+				}
 				if e.hasEffect(unbound(callee), depth+1) {
 					eff = true
 				}
@@ -611,7 +651,7 @@ func (e *taintEngine) analyze(fn *ssa.Function) {
 						if c.sortedBefore(r, x) {
 							continue
 						}
-						if _, reviewed := reviewedOrderIndependent[name]; reviewed {
+						if e.c.orderReviewed(fn) {
 							continue
 						}
 						e.setRet(fn, w+" -> returned by "+name)
@@ -744,7 +784,7 @@ func (e *taintEngine) loopEffect(fn *ssa.Function, x ssa.CallInstruction, why st
 		}
 	}
 	if len(callees) == 0 {
-		if _, reviewed := reviewedOrderIndependent[name]; reviewed {
+		if c.orderReviewed(fn) {
 			return
 		}
 		e.find(name+"|effect|"+cn, c.pos(x.Pos()), name, "a call whose target is unknown is made once per entry of a Go map: its effects happen in map order", why)
@@ -752,19 +792,35 @@ func (e *taintEngine) loopEffect(fn *ssa.Function, x ssa.CallInstruction, why st
 	}
 	for _, g := range callees {
 		if e.hasEffect(g, 0) {
-			if _, reviewed := reviewedOrderIndependent[name]; reviewed {
+			if c.orderReviewed(fn) {
 				continue
 			}
 			// a helper that only writes into what it is handed (`seen.add(name)`), handed something made in this very
 			// iteration: nothing outlives the iteration, so the order of iterations does not show
 			if ps, only := e.paramOnlyEffects(g); only && fresh != nil && staticCallee(cc) != nil && !strings.HasSuffix(staticCallee(cc).Name(), "$bound") {
 				confined := true
+				var cells []ssa.Value
 				for _, p := range ps {
-					if p >= len(cc.Args) || !fresh(addrRoot(cc.Args[p])) {
+					if p >= len(cc.Args) {
 						confined = false
+						continue
 					}
+					root := addrRoot(cc.Args[p])
+					if fresh(root) {
+						continue
+					}
+					// a local of this function filled through the helper (`errs.invalid(...)` for `errs = append(errs, ...)`):
+					// the same as storing into it here - the local carries the order from now on, which is judged where it is used
+					if al, ok := root.(*ssa.Alloc); ok && al.Parent() == fn {
+						cells = append(cells, root)
+						continue
+					}
+					confined = false
 				}
 				if confined {
+					for _, cell := range cells {
+						e.setCell(cell, why+": filled through "+fname(g)+" once per entry")
+					}
 					continue
 				}
 			}
@@ -1001,14 +1057,28 @@ func ruleMapOrder(c *Ctx) {
 	if ns := c.fn("util", "NewSet"); ns != nil {
 		ok := true
 		n := 0
-		allInstrs(ns, func(in ssa.Instruction) {
-			switch in.(type) {
-			case *ssa.MapUpdate:
-				n++
-			case *ssa.Store, *ssa.Send:
-				ok = false
-			}
-		})
+		var scan func(f *ssa.Function, depth int)
+		scan = func(f *ssa.Function, depth int) {
+			allInstrs(f, func(in ssa.Instruction) {
+				switch x := in.(type) {
+				case *ssa.MapUpdate:
+					n++
+				case *ssa.Store:
+					// (a value receiver spilled into a local is not an effect)
+					if a, isLocal := x.Addr.(*ssa.Alloc); !isLocal || a.Heap {
+						ok = false
+					}
+				case *ssa.Send:
+					ok = false
+				case ssa.CallInstruction:
+					// an unexported helper of the package that does the storing (`s.add(v)`)
+					if callee := staticCallee(x.Common()); callee != nil && c.isRepoFunc(callee) && depth < 2 && !isExportedFn(callee) && pkgOfFunc(callee) == pkgOfFunc(ns) {
+						scan(callee, depth+1)
+					}
+				}
+			})
+		}
+		scan(ns, 0)
 		c.check(ok && n == 1, "util.NewSet|sanitiser", c.pos(ns.Pos()), fname(ns), "NewSet only stores elements as map keys: the result does not depend on argument order", "util.NewSet is treated as erasing order but no longer just stores its elements as map keys")
 	} else {
 		c.missing("util.NewSet")
@@ -1191,6 +1261,7 @@ func ruleNonDet(c *Ctx) {
 // IOLAYER
 
 func ruleIOLayer(c *Ctx) {
+	c.checkNoSingleRead()
 	allowed := map[string]map[string]string{
 		"os.Stdin":    {"cmd.readFileOrStdin": "the one place that selects stdin"},
 		"os.Stdout":   {"cmd.getOutput": "the one place that selects stdout"},
@@ -1395,6 +1466,21 @@ func ruleIOLayer(c *Ctx) {
 			c.check(problem == "", key, c.pos(nw.Pos()), fname(fn), "buffered output is flushed before the output underneath is closed", fmt.Sprintf("%s: the bufio.Writer %s; with -o FILE the file comes out truncated or empty while the same command on stdout looks complete", fname(fn), problem))
 		}
 	}
+	// the output is a writer, whatever is behind it: nothing asks whether it is a file (stdout, a pipe and -o FILE would
+	// part ways: a Sync that succeeds on a file fails on a pipe)
+	for _, fn := range c.srcFuncs() {
+		allInstrs(fn, func(in ssa.Instruction) {
+			ta, ok := in.(*ssa.TypeAssert)
+			if !ok || typeName(ta.AssertedType) != "os.File" {
+				return
+			}
+			if _, isIface := ta.X.Type().Underlying().(*types.Interface); !isIface {
+				return
+			}
+			c.site(1)
+			c.bad(c.ownerName(fn)+"|os.File-assert", c.pos(ta.Pos()), fname(fn), fname(fn)+" asks whether a reader / writer is an *os.File: what follows depends on whether the data goes to (comes from) a file, a pipe or a terminal, so the same command succeeds with -o FILE and fails on a pipe, or the other way round")
+		})
+	}
 	// every data handler writes through getOutput / writeYamlOutput and reads through readFileOrStdinFromArgs
 	m := c.buildCobraModel()
 	if m == nil {
@@ -1425,6 +1511,14 @@ func ruleIOLayer(c *Ctx) {
 		reads := findRegion(region, func(ci ssa.CallInstruction) bool {
 			return calleeName(ci.Common()) == "cmd.readFileOrStdinFromArgs"
 		})
+		// a command that reads its input through readFileOrStdinFromArgs takes an optional FILE: its positional-argument
+		// validator, if it has one, lets one argument through (stdin, `-` and FILE must all be accepted)
+		if len(reads) > 0 {
+			c.site(1)
+			v := m.args[cmd]
+			accepts := v == "" || v == "ArbitraryArgs" || strings.HasPrefix(v, "MaximumNArgs(") && v != "MaximumNArgs(0)" || strings.HasPrefix(v, "RangeArgs(0)") || strings.HasPrefix(v, "MinimumNArgs(0)") || strings.HasPrefix(v, "MinimumNArgs(1)") && false
+			c.check(accepts, "handler|"+cmd+"|file-argument", c.pos(h.Pos()), fname(h), "an optional FILE argument is accepted", "command "+cmd+" reads FILE / - / stdin but its Args validator is "+v+": a FILE (or -) on the command line is refused while the same bytes on stdin are accepted")
+		}
 		if len(opens) > 0 && len(reads) > 0 {
 			c.site(1)
 			good := true
@@ -1472,6 +1566,7 @@ func (c *Ctx) staticReach(fn *ssa.Function) map[string]bool {
 // DEBUGOUT
 
 func ruleDebugOut(c *Ctx) {
+	c.checkDebugBranchesLogOnly()
 	// smallest yyDebug level that guards a print to stdout in the generated parser
 	sp := c.ssapkg("input/ast")
 	if sp == nil {
@@ -1742,4 +1837,153 @@ func (c *Ctx) comparatorTotal(cmpf *ssa.Function) string {
 		return fmt.Sprintf("never looks at the field(s) %v of %s: two values that differ only there compare equal", missing, typeName(t))
 	}
 	return ""
+}
+
+// checkDebugBranchesLogOnly: a branch taken only when debug logging is enabled (a test of slog's Enabled) does nothing
+// but log: inside it there are calls of log/slog, logx, fmt's Sprint family and String methods only, and stores into
+// memory allocated inside the branch only. Sorting a slice for the log line, taking the pending delta to print it or
+// installing a wrapper there changes what the command writes when --debug is given.
+func (c *Ctx) checkDebugBranchesLogOnly() {
+	n := 0
+	for _, fn := range c.srcFuncs() {
+		for _, ci := range callsIn(fn) {
+			name := calleeName(ci.Common())
+			if name != "log/slog.Logger.Enabled" && name != "log/slog.Handler.Enabled" && name != "log/slog.JSONHandler.Enabled" && name != "log/slog.TextHandler.Enabled" {
+				continue
+			}
+			n++
+			c.site(1)
+			key := "debug-branch|" + fname(fn)
+			call, ok := ci.(*ssa.Call)
+			if !ok {
+				c.bad(key, c.pos(ci.Pos()), fname(fn), "the log level is asked in a go / defer statement")
+				continue
+			}
+			problem := ""
+			for _, ref := range *call.Referrers() {
+				if _, isDbg := ref.(*ssa.DebugRef); isDbg {
+					continue
+				}
+				iff, isIf := ref.(*ssa.If)
+				if !isIf {
+					problem = "the answer of Enabled is used for something other than guarding a log statement (" + c.pos(ref.Pos()) + ")"
+					continue
+				}
+				b := iff.Block()
+				side := b.Succs[0]
+				if side == b.Succs[1] || len(side.Preds) != 1 {
+					continue
+				}
+				region := map[*ssa.BasicBlock]bool{}
+				for _, x := range fn.Blocks {
+					if x == side || side.Dominates(x) {
+						region[x] = true
+					}
+				}
+				local := map[ssa.Value]bool{}
+				for x := range region {
+					for _, in := range x.Instrs {
+						if a, ok := in.(*ssa.Alloc); ok {
+							local[a] = true
+						}
+					}
+				}
+				baseOf := func(a ssa.Value) ssa.Value {
+					for i := 0; i < 6; i++ {
+						switch y := a.(type) {
+						case *ssa.FieldAddr:
+							a = y.X
+						case *ssa.IndexAddr:
+							a = y.X
+						default:
+							return a
+						}
+					}
+					return a
+				}
+				// nothing made in the branch is used after it (a wrapper installed for logging stands between the parts from then on)
+				for _, x := range fn.Blocks {
+					if region[x] {
+						continue
+					}
+					for _, in := range x.Instrs {
+						phi, ok := in.(*ssa.Phi)
+						if !ok {
+							break
+						}
+						for i, e := range phi.Edges {
+							if region[x.Preds[i]] {
+								if _, isConst := e.(*ssa.Const); !isConst {
+									if ei, ok := e.(ssa.Instruction); ok && region[ei.Block()] {
+										problem = "a value made in the debug-only branch is used after it (" + c.pos(phi.Pos()) + "): with --debug the program works with something else than without it"
+									}
+								}
+							}
+						}
+					}
+				}
+				for x := range region {
+					for _, in := range x.Instrs {
+						switch y := in.(type) {
+						case *ssa.Store:
+							if !local[baseOf(y.Addr)] {
+								problem = "the debug-only branch stores into memory from outside it (" + c.pos(y.Pos()) + ")"
+							}
+						case *ssa.MapUpdate, *ssa.Send, *ssa.Go, *ssa.Defer, *ssa.Return, *ssa.Panic:
+							problem = "the debug-only branch does more than log (" + c.pos(in.Pos()) + ")"
+						case ssa.CallInstruction:
+							cn := calleeName(y.Common())
+							switch {
+							case strings.HasPrefix(cn, "log/slog."), strings.HasPrefix(cn, "logx."), strings.HasPrefix(cn, "context."),
+								strings.HasPrefix(cn, "fmt.Sprint"), strings.HasPrefix(cn, "strconv."), strings.HasPrefix(cn, "builtin.len"), strings.HasPrefix(cn, "builtin.cap"),
+								strings.HasSuffix(cn, ".String"), strings.HasPrefix(cn, "time.Now"), strings.HasPrefix(cn, "time.Since"):
+							default:
+								problem = "the debug-only branch calls " + cn + " (" + c.pos(y.Pos()) + "): only logging is expected there"
+							}
+						}
+					}
+				}
+			}
+			c.check(problem == "", key, c.pos(ci.Pos()), fname(fn), "the branch taken when debug logging is enabled only logs", fname(fn)+": "+problem+": with --debug the command may write something else than without it")
+		}
+	}
+	if n == 0 {
+		c.site(1)
+		c.ok("debug-branch|none", "", "", "no branch of the program asks whether debug logging is enabled")
+	}
+}
+
+// checkNoSingleRead: an input is read to its end (io.ReadAll, a decoder, a scanner); nothing in the repo calls Read on
+// an io.Reader itself. One Read returns what is there at the moment: a regular file whole, a pipe at most one buffer
+// of it - the same text would give different results from FILE and from stdin.
+func (c *Ctx) checkNoSingleRead() {
+	var sites []string
+	for _, fn := range c.srcFuncs() {
+		if strings.HasSuffix(c.Fset.PositionFor(fn.Pos(), false).Filename, "_generated.go") {
+			continue
+		}
+		for _, ci := range callsIn(fn) {
+			cm := ci.Common()
+			isRead := false
+			if cm.IsInvoke() && cm.Method.Name() == "Read" && cm.Method.Type().(*types.Signature).Params().Len() == 1 {
+				isRead = true
+			} else if callee := staticCallee(cm); callee != nil && callee.Name() == "Read" && callee.Signature.Recv() != nil && !c.isRepoFunc(callee) {
+				if p := callee.Pkg; p != nil && (p.Pkg.Path() == "os" || p.Pkg.Path() == "bufio" || p.Pkg.Path() == "io" || p.Pkg.Path() == "bytes" || p.Pkg.Path() == "strings") {
+					isRead = true
+				}
+			}
+			if !isRead {
+				continue
+			}
+			// a Read method of the repo that forwards to the reader it wraps is a reader itself, not a consumer
+			if fn.Name() == "Read" && fn.Signature.Recv() != nil {
+				continue
+			}
+			sites = append(sites, fname(fn)+" ("+c.pos(ci.Pos())+")")
+		}
+	}
+	sort.Strings(sites)
+	sites = uniq(sites)
+	c.site(1)
+	c.check(len(sites) == 0, "io|single-read", "", "", "no input is consumed by a single Read call", fmt.Sprintf("%s call(s) Read on a reader directly: one Read returns what is available at that moment (a whole regular file, but at most one pipe buffer of stdin), so the same text gives different results from FILE and from stdin", strings.Join(sites, ", ")))
 }
